@@ -991,6 +991,10 @@ pub fn run_trace(trace: &Trace, ctx: &mut Ctx) -> RunOutcome {
                             viol!("C13", si, step, "alias_encoding_accepted", format!("via {via}: {}", alter.to_json()));
                         } else if matches!(alter, Alter::Truncate { .. } | Alter::Raw { .. }) || matches!(alter, Alter::DeclaredLen { len } if *len as usize > m.signal.len()) {
                             viol!("C13", si, step, "malformed_accepted", format!("via {via}: {}", alter.to_json()));
+                            if matches!(alter, Alter::DeclaredLen { .. }) {
+                                // C02 names the declared signal length among the things that must not be changeable
+                                viol!("C02", si, step, "tampered_accepted", format!("via {via} roots {}: {}", roots.to_json(), alter.to_json()));
+                            }
                         } else {
                             viol!("C02", si, step, "tampered_accepted", format!("via {via} roots {}: {}", roots.to_json(), alter.to_json()));
                         }
@@ -1035,7 +1039,15 @@ pub fn run_trace(trace: &Trace, ctx: &mut Ctx) -> RunOutcome {
                             }
                             continue;
                         }
-                        let (pa, pb) = (pa.unwrap(), pb.unwrap());
+                        // a message handed out by a successful proving call that does not even decode (short, shifted fields)
+                        // cannot expose the secret: that is the property's violation, not a reason for the harness to stop
+                        let (pa, pb) = match (pa, pb) {
+                            (Some(x), Some(y)) => (x, y),
+                            _ => {
+                                viol!("C03", si, step, "secret_not_recovered", format!("generated message does not decode (lengths {} and {}); result {:?}", ma.bytes.len(), mb.bytes.len(), res.map_err(|e| e.to_string())));
+                                continue;
+                            }
+                        };
                         let same_member = ma.member == mb.member;
                         let same_slot = same_member && ma.ext == mb.ext && ma.id == mb.id;
                         // nullifier clauses
